@@ -13,14 +13,13 @@ open Mpt.Visible
 /-- `UINT16_MAX` -/
 def u16max : Nat := 65535
 
-/-- `mpt_linepart_code(val)`: `-2` outside `[0,1]`; a non-zero value whose product with 65536 vanishes
-    gives 1 (never taken in exact arithmetic: `code_tiny_dead`); else `val·65536` clamped to 65535 and
-    truncated by the conversion to `int` -/
+/-- `mpt_linepart_code(val)`: `-2` outside `[0,1]`; a non-zero value below 1/65536 gives 1 (code 0 means
+    "nothing cut" to the consumers); else `val·65536` clamped to 65535 and truncated by the conversion to `int` -/
 def code (val : Rat) : Int :=
   if val < 0 ∨ 1 < val then -2
   else
     let small := val * 65536
-    if val ≠ 0 ∧ small = 0 then 1
+    if val ≠ 0 ∧ small < 1 then 1
     else if 65535 < small then 65535 else small.floor
 
 /-- `mpt_linepart_real(val)` -/
